@@ -29,6 +29,8 @@ type Store struct {
 	retainedCheckpointsUpdated chan []uint64
 	state                      storeState
 	stateMu                    sync.Mutex
+	notifyMu                   sync.Mutex // Serializes retention announcements
+	lastAnnouncedID            uint64     // The newest checkpoint ID announced for retention
 	sourceSplitters            []connectors.SourceSplitter
 }
 
@@ -214,6 +216,36 @@ func (s *Store) finishSnapshotAsync(snap *jobSnapshot) (uri string, err error) {
 	// Accessing state to update completedSnapshots
 	s.stateMu.Lock()
 
+	// Snapshots are finished asynchronously, so a later checkpoint may have been
+	// finished before this one. Then this one is already obsolete: it must not
+	// replace the later one, delete its file or be announced for retention.
+	supersededBy := uint64(0)
+	for _, doneSnap := range s.state.completedSnapshots {
+		if doneSnap.id > snap.id {
+			supersededBy = doneSnap.id
+		}
+	}
+	if supersededBy != 0 {
+		s.stateMu.Unlock()
+		s.log.Info("store wrote checkpoint that is already superseded", "uri", uri, "supersededBy", supersededBy)
+		path := filepath.Join(s.checkpointsPath, "job-"+pathSegment(snap.id)+".snapshot")
+		if !snap.isSavepoint {
+			if err := s.fileStore.Remove(path); err != nil {
+				s.log.Error("failed to remove superseded checkpoint file", "path", path, "err", err)
+			}
+			return uri, nil
+		}
+		spURI, err := CreateSavepointArtifact(s.fileStore, s.savepointsPath, uri, snap)
+		if rmErr := s.fileStore.Remove(path); rmErr != nil {
+			s.log.Error("failed to remove superseded checkpoint file", "path", path, "err", rmErr)
+		}
+		if err != nil {
+			return "", err
+		}
+		s.log.Info("store wrote savepoint", "uri", spURI)
+		return uri, nil
+	}
+
 	// When a new checkpoint is finished, all previous checkpoints are obsolete.
 	if len(s.state.completedSnapshots) > 0 {
 		obsoleteIDs := make([]uint64, 0, len(s.state.completedSnapshots))
@@ -232,9 +264,17 @@ func (s *Store) finishSnapshotAsync(snap *jobSnapshot) (uri string, err error) {
 			}
 		}()
 
-		// Notify subscribers of new list of checkpoints to retain (just the completed one)
+		// Notify subscribers of new list of checkpoints to retain (just the
+		// completed one). Announcements are sent one at a time and never for a
+		// checkpoint older than one already announced.
 		if s.retainedCheckpointsUpdated != nil {
 			go func() {
+				s.notifyMu.Lock()
+				defer s.notifyMu.Unlock()
+				if snap.id < s.lastAnnouncedID {
+					return
+				}
+				s.lastAnnouncedID = snap.id
 				s.retainedCheckpointsUpdated <- []uint64{snap.id}
 			}()
 		}
